@@ -44,7 +44,7 @@ def _fn_line(fd):
 def _mk(rule, fd, construct, msg, rec=None, extra=None):
     trace = None
     if rec is not None:
-        trace = {'entry_window': _win(rec), 'round_log': [(e[0], e[1], str(e[3]), sorted(e[4][0])) for e in rec['log']]}
+        trace = {'entry_window': _win(rec), 'round_log': [(e[0], e[1], str(e[3]), sorted(e[4][0])) for e in rec['log'] if e[0] != 'declined']}
         if extra:
             trace.update(extra)
     return Finding(rule, 'tokens', fd.qual if fd is not None else 'next_token', construct, msg,
@@ -79,6 +79,8 @@ def r19_b(ctx):
     seen = set()
     for rec in t.records:
         for e in rec['log']:
+            if e[0] == 'declined':
+                continue
             key = (e[0], e[1], e[2], e[3], e[4])
             if key in seen:
                 continue
@@ -766,6 +768,63 @@ def r12_a(ctx):
                             'a token that is neither a math switch nor a comment can swallow an unescaped $', rec))
     if n < 4:
         raise AnalysisError('math switch windows not covered (%d)' % n)
+    return rr
+
+
+def r12_f(ctx):
+    """sizing commands: the rule that emits punctuation command names never declines right after a backslash
+    without having compared every sizing literal that can stand at the cursor"""
+    t = table(ctx)
+    A = t.alphabet
+    pc = A.TC.members.get('PunctuationCommandName')
+    if pc is None:
+        raise AnalysisError('TC.PunctuationCommandName vanished')
+    rr = RuleResult('R12.f', 'right after a backslash, the rule that emits sizing commands (\\left[ \\right) \\big( ...) '
+                    'returns without a token only when a look-ahead comparison has excluded every sizing literal that '
+                    'the characters at the cursor could spell; when a comparison succeeds the token covers the whole '
+                    'literal, delimiter included', floor=3)
+    rules = set()
+    for rec in t.records:
+        for e in rec['log']:
+            if e[0] == 'emit' and e[2].kind and e[2].kind[0] == 'tc' and int(pc) in e[2].kind[1]:
+                rules.add(e[1])
+    if not rules:
+        raise AnalysisError('no tokenizer rule emits TC.PunctuationCommandName')
+    seen = set()
+    n_emit = 0
+    for rec in t.records:
+        for e in rec['log']:
+            if e[0] == 'emit' and e[1] in rules and e[2].kind and e[2].kind[0] == 'tc' and int(pc) in e[2].kind[1]:
+                k = ('emit', e[1], e[3], e[2].start, e[2].lag)
+                if k in seen:
+                    continue
+                seen.add(k)
+                n_emit += 1
+                ok = e[2].start == 0 and e[2].lag == 0 and e[3] != 0
+                rr.ob(ok, {'rule': e[1], 'emits_whole_literal': ok, 'moved': str(e[3])})
+                if not ok:
+                    rr.fail(_mk('R12.f', _rule_fn(t, e[1]), 'rule %s: sizing command token does not cover the literal' % e[1],
+                                'the sizing-command token does not span exactly the compared literal: its delimiter would '
+                                'be left in the stream as an unbalanced bracket', rec))
+            elif e[0] == 'declined' and e[1] in rules:
+                k = ('declined', e[1], e[2])
+                if k in seen:
+                    continue
+                seen.add(k)
+                rr.ob(False, {'rule': e[1], 'declines_without_comparing': list(e[2])[:6]})
+                rr.fail(_mk('R12.f', _rule_fn(t, e[1]), 'rule %s declines after a backslash without comparing %s' % (
+                    e[1], ', '.join(sorted(e[2])[:4]) + (' ...' if len(e[2]) > 4 else '')),
+                    'right after a backslash, tokenizer rule %r can return without a token although the characters at '
+                    'the cursor may spell a sizing command (%s) that no comparison has excluded: the command is then '
+                    'tokenized as a plain command name and its delimiter as a bracket that must balance'
+                    % (e[1], ', '.join(sorted(e[2])[:6])), rec))
+    # the declining paths that did compare
+    for rec in t.records:
+        if rec['window'][0] in ('Escape',) or (rec['window'][0] in A.sym_cc and A.ccname(rec['window'][0]) == 'Escape'):
+            k = ('window', rec['window'][:2])
+            if k not in seen:
+                seen.add(k)
+                rr.ob(True, {'entry_after_backslash': str(rec['window'][:2])})
     return rr
 
 
